@@ -11,6 +11,12 @@ func init() {
 	register(&propDef{ID: "C06",
 		Jobs: func(tier string) []Job {
 			jobs := seqJobs("C06", tier, seqCfgs(tier, []bool{false, true}, []string{"default", "kv"}, []string{"drain", "starve"}, 5, 6))
+			// three writers: the middle one of the writer list stays idle (stitching of the per-writer garbage lists)
+			d3 := 4
+			if tier == "thorough" {
+				d3 = 5
+			}
+			jobs = append(jobs, seqJobs("C06", tier, []seqCfg{{nCfg: nCfg{cmp: "default", writers: 3}, policy: "drain", depth: d3, maxSnaps: 3, init: "ab"}})...)
 			return append(jobs, c06ConcJobs(tier)...)
 		},
 		Rule:  "histories: every operation sequence up to the depth (alphabet of C02 incl. losing DeleteNode through a second writer); at every point every version visible to an open snapshot must be physically present; at every quiescent point after a forced pass (workers drained, GC()) the physical set must be exactly live items + versions with dead > p (p = largest epoch with all snapshots <= p closed), and node_count / soft_deletes / memory_used / MemoryInUse / GetLastGCSn agree; schedules: see the conc jobs; non-trivial = distinct states / deviating schedules",
